@@ -263,3 +263,11 @@ package file
 //@   ensures [existing-table-untouched] h != nil && h.openType != ForCreate ==> fs[h.path] == old(fs[h.path])
 //@   modifies *
 //@   modifies fs
+
+// the open file of a handler: asking a missing handler for it is a nil dereference (C19)
+//@ func (*Handler).File
+//@   property C19
+//@   safety
+//@   requires [handler-exists] h != nil
+//@   ensures result == h.fp
+//@   modifies nothing
